@@ -71,23 +71,27 @@ Parallel(cfg) == cfg.forked /\ cfg.par > 1 /\ cfg.kind \in {"Map", "FMap", "Filt
 Unspecified(cfg) == Parallel(cfg) /\ cfg.mode = "lift" /\ cfg.fail # {} /\ cfg.kind \in {"Map", "FMap"}
 Ok(cfg, s) == IF cfg.mode = "try" THEN Good(s, cfg.fail) ELSE IF cfg.mode = "lift" THEN UpToFirstFail(s, cfg.fail) ELSE s
 Errs(cfg, s) == IF cfg.mode = "try" THEN Bad(s, cfg.fail) ELSE IF cfg.mode = "lift" THEN FirstN(Bad(s, cfg.fail), 1) ELSE <<>>
+\* a predicate that fails on an element (Lift / Try) does not hold for it: Filter drops it, Partition sends it right, TakeWhile
+\* stops - that is what the sequential stages do (`take && err == nil`), and C09 measures the fork stages against them.
+\* (Under Pure the harness' wrapper cannot report the failure and the predicate simply answers true.)
+YesSet(cfg) == IF cfg.mode = "pure" THEN cfg.pred \cup cfg.fail ELSE cfg.pred \ cfg.fail
 \* expected content of returned channel o for the input sequence s (uncancelled result)
 L(cfg, o, s) ==
   CASE o = "exx" -> Errs(cfg, s)
     [] cfg.kind = "Map" -> MapL(Ok(cfg, s))
     [] cfg.kind = "FMap" -> FMapL(Ok(cfg, s))
-    [] cfg.kind = "Filter" -> SelectSeq(s, LAMBDA x : x \in cfg.pred)
-    [] cfg.kind = "Partition" /\ o = "out" -> SelectSeq(s, LAMBDA x : x \in cfg.pred)
-    [] cfg.kind = "Partition" /\ o = "rout" -> SelectSeq(s, LAMBDA x : x \notin cfg.pred)
+    [] cfg.kind = "Filter" -> SelectSeq(s, LAMBDA x : x \in YesSet(cfg))
+    [] cfg.kind = "Partition" /\ o = "out" -> SelectSeq(s, LAMBDA x : x \in YesSet(cfg))
+    [] cfg.kind = "Partition" /\ o = "rout" -> SelectSeq(s, LAMBDA x : x \notin YesSet(cfg))
     [] cfg.kind = "Take" -> FirstN(s, cfg.n)
-    [] cfg.kind = "TakeWhile" -> TakeWhileL(s, cfg.pred)
+    [] cfg.kind = "TakeWhile" -> TakeWhileL(s, YesSet(cfg))
     [] cfg.kind = "Fold" -> <<FoldL(cfg.monoid, MEmpty(cfg.monoid), s)>>
     [] cfg.kind \in {"Throttling", "New", "ToSeq"} -> s
     [] OTHER -> <<>>
 \* the elements on which the user function is expected to be entered
 CalledL(cfg, s) ==
   CASE cfg.kind \in {"Map", "FMap"} -> IF cfg.mode = "lift" THEN UpToFirstFailIncl(s, cfg.fail) ELSE s
-    [] cfg.kind = "TakeWhile" -> FirstN(s, Len(TakeWhileL(s, cfg.pred)) + 1)
+    [] cfg.kind = "TakeWhile" -> FirstN(s, Len(TakeWhileL(s, YesSet(cfg))) + 1)
     [] cfg.kind \in {"Filter", "Partition", "ForEach", "Fold"} -> s
     [] OTHER -> <<>>
 
@@ -232,6 +236,10 @@ EmitKeepUp(cfg, obs) ==
 GenStops(cfg, obs) ==
   (cfg.kind \in {"Emit", "Unfold"} /\ obs.cancelled) =>
      \A o \in obs.outs : Len(obs.got[o]) - obs.gotAtCancel[o] <= cfg.cap + 42
+\* ... "until cancelled": a generator does not end by itself (only a failure under Lift ends it)
+GenNoEarlyClose(cfg, obs) ==
+  (cfg.kind \in {"Emit", "Unfold"} /\ ~obs.cancelled /\ ~(cfg.mode = "lift" /\ \E j \in 1..Len(obs.calls) : obs.calls[j].x \in cfg.fail))
+     => \A o \in obs.outs : ~obs.seen[o]
 \* both stop and close their channels after cancel (with Settle2)
 GenSettle(cfg, obs) ==
   (cfg.kind \in {"Emit", "Unfold"} /\ cfg.mode = "lift" /\ obs.quiet /\ obs.pending = 0 /\ Drained(obs)
@@ -278,7 +286,7 @@ Verdicts(cfg, obs) ==
    Settle1 |-> Settle1(cfg, obs), Settle2 |-> Settle2(cfg, obs), LiftCloses |-> LiftCloses(cfg, obs),
    PipePrefix |-> PipePrefix(cfg, obs), PipeComplete |-> PipeComplete(cfg, obs), PipeSettle |-> PipeSettle(cfg, obs), PipeGen |-> PipeGen(cfg, obs),
    NeverBlocksSender |-> NeverBlocksSender(cfg, obs), LosslessAfterCancel |-> LosslessAfterCancel(cfg, obs), NewSettle |-> NewSettle(cfg, obs),
-   GenExact |-> GenExact(cfg, obs), GenStops |-> GenStops(cfg, obs), EmitPaced |-> EmitPaced(cfg, obs), EmitKeepUp |-> EmitKeepUp(cfg, obs), GenSettle |-> GenSettle(cfg, obs),
+   GenExact |-> GenExact(cfg, obs), GenStops |-> GenStops(cfg, obs), GenNoEarlyClose |-> GenNoEarlyClose(cfg, obs), EmitPaced |-> EmitPaced(cfg, obs), EmitKeepUp |-> EmitKeepUp(cfg, obs), GenSettle |-> GenSettle(cfg, obs),
    JoinPerInput |-> JoinPerInput(cfg, obs), JoinNothingInvented |-> JoinNothingInvented(cfg, obs), JoinComplete |-> JoinComplete(cfg, obs),
    ThrottleWindow |-> ThrottleWindow(cfg, obs), ThrottlePaced |-> ThrottlePaced(cfg, obs)]
 Failing(cfg, obs) == LET v == Verdicts(cfg, obs) IN {p \in DOMAIN v : ~v[p]}
